@@ -98,7 +98,7 @@ func genCanonCase(t *rapid.T, maxN, nperms int) canonCase {
 func canonicalGraphOf(g *oracle.G) (*oracle.G, error) {
 	var keys []string
 	var first *oracle.G
-	for _, rep := range []string{"dense", "sparse", "cocomp"} {
+	for _, rep := range []string{"dense", "sparse", "cocomp", "dense-bytes"} {
 		gr := reps(g)[rep]
 		var p []int
 		if pn := try(func() { p = graph.CanonicalIsomorph(gr) }); pn != nil {
@@ -355,7 +355,11 @@ func checkAutCase(c autCase, rec *Rec) error {
 	default:
 		rec.Label("aut->n")
 	}
-	for _, rep := range []string{"dense", "sparse"} {
+	repList := []string{"dense", "sparse", "dense-bytes", "induced-reversed"}
+	if g.N > 20 {
+		repList = []string{"sparse", "dense-bytes"} // the oracle dominates the cost on large graphs
+	}
+	for _, rep := range repList {
 		var perm []int
 		var orbits disjoint.Set
 		var gens [][]int
@@ -601,12 +605,12 @@ func checkClassCase(c classCaseV, rec *Rec) error {
 func init() {
 	RegisterRapid("C01_canonical_invariance",
 		"rapid: graph from the mixed generator biased to symmetric inputs (random d-regular graphs by edge switching, circulants, Cayley graphs of Z_a x Z_b, hypercubes, Petersen/Kneser/Johnson/Paley/Shrikhande/rook/generalised Petersen, complete multipartite, products, k disjoint copies (+ another component), joins, wheels, G(n,p)); optional complement, 0-2 toggled edges, isolated/universal vertex; n <= 12 (quick) / 20 (thorough), and in a quarter of the cases graphs on 13..36 (44) vertices whose refinement leaves cells of 13..36 vertices (unions of 2-4 cycles, 2-3 copies of a 7..13-vertex graph, Latin-square graphs of order 3..6, random regular graphs on 14..30 vertices, complete multipartite graphs with parts up to 14, rook/Kneser/Johnson/hypercube/Paley graphs, sparse graphs with many leaves); 4 (8) uniform relabellings pi. CanonicalIsomorph must return a permutation (dense, sparse and view inputs agree; g.InducedSubgraph(perm) equals the model's relabelling) and the canonical graphs of g and every pi(g) must be identical; a second graph (a degree-preserving edge switch of g, relabelled) must get the same canonical graph iff the oracle's individualisation-refinement canonical form says they are isomorphic. Non-trivial: 1-WL colour refinement does not individualise all vertices (the search tree must branch).",
-		Budget{Checks: 2500, Shards: 1}, Budget{Checks: 40000, Shards: 16},
+		Budget{Checks: 2500, Shards: 1}, Budget{Checks: 6000, Shards: 16},
 		func(t *rapid.T) canonCase { return genCanonCase(t, sz(12, 20), sz(4, 8)) }, checkCanonCase)
 	RegisterEnum("C01_all_classes",
-		"enumeration: EVERY isomorphism class on n <= 7 (quick; 1253 classes x 6 relabellings) / n <= 8 (thorough; 13599 classes x 24 relabellings), classes from the oracle's own extension procedure, relabellings derived from VERIF_SEED: canonical graph invariant under every relabelling. Complete up to isomorphism for that range.",
-		true, Budget{Shards: 1}, Budget{Shards: 8},
-		enumClassesCanon(func() int { return sz(7, 8) }, func() int { return sz(6, 24) }, false), checkCanonCase)
+		"enumeration: EVERY isomorphism class on n <= 7 (quick; 1253 classes x 6 relabellings) / n <= 9 (thorough; 288267 classes x 8 relabellings), classes from the oracle's own extension procedure, relabellings derived from VERIF_SEED: canonical graph invariant under every relabelling. Complete up to isomorphism for that range.",
+		true, Budget{Shards: 1}, Budget{Shards: 16},
+		enumClassesCanon(func() int { return sz(7, 9) }, func() int { return sz(6, 8) }, false), checkCanonCase)
 	RegisterEnum("C01_regular_classes_n9",
 		"enumeration (thorough only does n = 9): every REGULAR graph among the isomorphism classes on n <= 8 (quick) / n <= 9 (thorough; 274668 classes filtered) x 16 (64) relabellings.",
 		true, Budget{Shards: 1}, Budget{Shards: 8},
